@@ -711,3 +711,51 @@ def outer_names(facts, outer, body, op, **kw):
         else:
             out.add(mir.origin_summary(o))
     return out
+
+
+def outer_site(facts, outer, body, bi, depth=4):
+    """Block of `outer` at which the code of block `bi` of `body` runs: `bi` itself if body is outer;
+    for a closure, the call in its parent to which the closure value is passed (for_each, map, modify, ...);
+    for a named helper with a single call site, that call site. None if it cannot be placed."""
+    if body is outer:
+        return bi
+    if depth <= 0:
+        return None
+    site = mir.closure_site(facts, body)
+    if site:
+        pb, pbi, psi, ps = site
+        hits = []
+        for qbi, qt in pb.calls():
+            for a in qt["a"]:
+                if a[0] == "const":
+                    continue
+                if any(o.kind == "agg" and o.data[0][0] in ("closure", "coroutine", "coroutine_closure") and o.data[0][1] == body.path for o in trace(pb, a, through_calls=False)):
+                    hits.append(qbi)
+        if len(hits) == 1:
+            return outer_site(facts, outer, pb, hits[0], depth - 1)
+        if not hits and body.parent == pb.path:
+            # a coroutine body: runs where its parent is entered
+            return outer_site(facts, outer, pb, pbi, depth - 1)
+        return None
+    if body.parent and body.parent in facts.bodies and body.kind not in ("fn", "assoc_fn"):
+        return outer_site(facts, outer, facts.bodies[body.parent], 0, depth - 1)
+    callers = facts.callers().get(body.path, [])
+    if len(callers) == 1:
+        cb, cbi, ct = callers[0]
+        return outer_site(facts, outer, cb, cbi, depth - 1)
+    return None
+
+
+def chain_has_call(body, op, pred, depth=0, max_depth=10):
+    """`op` is produced by a chain of calls followed through their first (receiver) argument -
+    adaptors, `?`, `.await` plumbing (into_future / new_unchecked / poll) - that includes a call
+    satisfying pred(terminator)"""
+    if depth > max_depth or op is None or op[0] == "const":
+        return False
+    for o in trace(body, op, through_calls=False):
+        if o.kind == "call":
+            if pred(o.data):
+                return True
+            if o.data["a"] and chain_has_call(body, o.data["a"][0], pred, depth + 1, max_depth):
+                return True
+    return False
